@@ -413,6 +413,9 @@ where
                 }
             }
         }
+        // typed objects and decoded stream data loaded from the old value must not be served again
+        self.cache.clear();
+        self.stream_cache.clear();
         let rc = Shared::new(obj);
         
         Ok(RcRef::new(r, rc))
